@@ -1,12 +1,23 @@
 package main
 
 // Directory-handle system of C02: a directory R/d with k entries, two handles
-// opened on it, histories of ReadDir(n)/Readdirnames(n)/Close, optionally one
-// Create/Remove of an entry in between. The kernel's entry ORDER is
+// opened on it, histories of ReadDir(n)/Readdirnames(n)/Close, with up to
+// maxMods modifications of the directory in between (an entry that sorts before
+// / after all others created, the first / the last entry removed, the first
+// entry renamed to a name that sorts last). The kernel's entry ORDER is
 // unspecified, so the oracle is: same batch sizes and error kinds as *os.File,
 // every name delivered at most once over the life of the handle, only names
 // of the directory (with the right type), union = directory content once the
 // kernel has delivered everything, then io.EOF.
+//
+// A handle that had started reading when the directory was modified is not
+// compared with the kernel (its answers are file-system specific there) but is
+// judged by the rule every directory stream obeys (getdents, os.File, what the
+// property's "each entry exactly once ... then io.EOF" means while the directory
+// changes): an entry that exists during the WHOLE listing - from the first piece
+// to io.EOF - is delivered exactly once, whatever is created, removed or renamed
+// meanwhile; entries that came or went meanwhile may or may not appear
+// (violations of kind whole-listing, see listing below).
 
 import (
 	"fmt"
@@ -24,17 +35,21 @@ import (
 )
 
 type dop struct {
-	Kind string // ReadDir Readdirnames Close | Create Remove
+	Kind string // ReadDir Readdirnames Close | Create Remove Rename
 	Slot int
 	N    int
+	Arg  string // Create, Remove: the entry; Rename: the old name
+	To   string // Rename: the new name
 }
 
 func (o dop) String() string {
 	switch o.Kind {
 	case "Create":
-		return "WriteFile(d/c)"
+		return "WriteFile(d/" + o.Arg + ")"
 	case "Remove":
-		return "Remove(d/e1)"
+		return "Remove(d/" + o.Arg + ")"
+	case "Rename":
+		return "Rename(d/" + o.Arg + ",d/" + o.To + ")"
 	case "Close":
 		return fmt.Sprintf("h%d.Close()", o.Slot)
 	}
@@ -52,6 +67,103 @@ type dslot struct {
 	stale   bool           // ... before the directory was modified: kernel answers are file-system specific from then on
 	kdel    []string       // names delivered by the kernel
 	vdel    map[string]int // names delivered by the emulation
+	lst     listing        // the listing in progress on the emulated handle
+}
+
+// listing is what the emulated handle owes its caller, judged without the kernel: the
+// pieces ReadDir(n) or Readdirnames(n), n > 0, deliver from the first call on a handle
+// up to the first io.EOF are ONE listing; whole holds
+// the names that have been in the directory since that listing began (a name that is
+// removed, renamed away or replaced meanwhile leaves it, a name that is created meanwhile
+// never enters it), got counts what the listing has delivered. Every name of whole must
+// be delivered exactly once before io.EOF.
+//
+// The lesson: code that lists "in pieces" keeps a cursor; a cursor that is an INDEX is only
+// right for the list it was taken from. An implementation that looks at the directory again
+// between two pieces (to drop removed names, to show new ones) while it keeps the numeric
+// cursor skips or repeats entries that were there all the time - the loop "read a piece,
+// remove what it named, read the next piece" (os.RemoveAll) then leaves entries behind. So
+// the directory is modified between the pieces before AND behind the cursor (first / last
+// name in either order, a name that sorts before / after every other), and what was
+// delivered is judged against what existed all along, not only against the end state.
+//
+// Handles that mix ReadDir and Readdirnames or use n <= 0 are not judged by this rule (kind
+// "mixed"): the emulation's two caches and shared cursor re-deliver there (known finding,
+// compared with the kernel above).
+type listing struct {
+	kind  string          // "" no read call yet | ReadDir | Readdirnames | mixed | ended
+	whole map[string]bool // nil: no listing in progress
+	got   map[string]int
+}
+
+func (l *listing) String() string {
+	if l.whole == nil {
+		return l.kind + ":-"
+	}
+
+	var got []string
+
+	for n, c := range l.got {
+		got = append(got, fmt.Sprintf("%s*%d", n, c))
+	}
+
+	sort.Strings(got)
+
+	return fmt.Sprintf("%s:whole%v:got%v", l.kind, sortedNames(l.whole), got)
+}
+
+// gone is called when a name stops denoting the entry it denoted (removed, renamed away, replaced).
+func (l *listing) gone(name string) {
+	if l.whole != nil {
+		delete(l.whole, name)
+	}
+}
+
+// piece records one read call of the emulated handle that returned (kind ok or EOF) and
+// returns what the rule has to say about it.
+func (l *listing) piece(call string, n int, kind string, names []string, content map[string]bool) (diffs, whats []string) {
+	if l.kind != "ended" && (n <= 0 || (l.kind != "" && l.kind != call)) {
+		l.kind, l.whole, l.got = "mixed", nil, nil
+	}
+
+	if l.kind == "mixed" || l.kind == "ended" {
+		return nil, nil
+	}
+
+	l.kind = call
+
+	if l.whole == nil {
+		l.whole, l.got = map[string]bool{}, map[string]int{}
+
+		for c := range content {
+			l.whole[c] = false
+		}
+	}
+
+	for _, name := range names {
+		name = strings.TrimSuffix(name, "/")
+		l.got[name]++
+
+		if _, ok := l.whole[name]; ok && l.got[name] == 2 {
+			diffs = append(diffs, "twice")
+			whats = append(whats, "an entry that was in the directory during the whole listing was delivered twice by that listing: "+name)
+		}
+	}
+
+	if kind == "EOF" {
+		for _, name := range sortedNames(l.whole) {
+			if l.got[name] == 0 {
+				diffs = append(diffs, "missed")
+				whats = append(whats, "io.EOF, and an entry that was in the directory during the whole listing was never delivered: "+name)
+			}
+		}
+
+		// the listing is over; os.File answers io.EOF from here on, the emulation starts again
+		// (known finding, compared with the kernel above): nothing more to judge on this handle
+		l.kind, l.whole, l.got = "ended", nil, nil
+	}
+
+	return diffs, whats
 }
 
 type dsys struct {
@@ -63,15 +175,16 @@ type dsys struct {
 	v        avfs.VFS
 	ops      []dop
 	slots    [2]dslot
-	modified bool
+	maxMods  int
+	mods     int             // modifications of the directory made so far
 	content  map[string]bool // current content (kernel side): name -> is directory
-	previous map[string]bool // content before the modification
+	previous map[string]bool // every entry the directory has had: name -> is directory
 	key      string
 	trace    bool
 	kept     keeper // every DirEntry, and the FileInfo of its Info(), the emulated handles have delivered since Reset (kept.go)
 }
 
-func buildDirOps() []dop {
+func buildDirOps(k, maxMods int) []dop {
 	var ops []dop
 
 	for s := 0; s < 2; s++ {
@@ -84,7 +197,25 @@ func buildDirOps() []dop {
 		ops = append(ops, dop{Kind: "Close", Slot: s})
 	}
 
-	return append(ops, dop{Kind: "Create", Slot: -1}, dop{Kind: "Remove", Slot: -1})
+	// modifications before and behind every cursor: the emulation lists by name (e1 first),
+	// tmpfs by age (the newest first), so the first and the last entry and a new name that
+	// sorts before (c) and after (z) every other cover both ends on both sides; the Rename
+	// takes a name away at one end and adds (or replaces) one at the other in one call
+	// (with one modification per history the Rename is the call that adds z; WriteFile(z) is
+	// in the alphabet from two modifications on, where it makes the Rename a replacing one)
+	ops = append(ops, dop{Kind: "Create", Slot: -1, Arg: "c"})
+
+	if maxMods > 1 {
+		ops = append(ops, dop{Kind: "Create", Slot: -1, Arg: "z"})
+	}
+
+	ops = append(ops, dop{Kind: "Remove", Slot: -1, Arg: "e1"})
+
+	if k > 1 {
+		ops = append(ops, dop{Kind: "Remove", Slot: -1, Arg: dirEntries[k-1].name})
+	}
+
+	return append(ops, dop{Kind: "Rename", Slot: -1, Arg: "e1", To: "z"})
 }
 
 func (s *dsys) NumOps() int           { return len(s.ops) }
@@ -164,8 +295,8 @@ func (s *dsys) Reset() error {
 		s.slots[i] = dslot{st: stOpen, k: kh, v: vf, vdel: map[string]int{}}
 	}
 
-	s.modified = false
-	s.previous = nil
+	s.mods = 0
+	s.previous = map[string]bool{}
 
 	if err := s.readContent(); err != nil {
 		return err
@@ -185,6 +316,7 @@ func (s *dsys) readContent() error {
 	s.content = map[string]bool{}
 	for _, e := range es {
 		s.content[e.Name()] = e.IsDir()
+		s.previous[e.Name()] = e.IsDir()
 	}
 
 	return nil
@@ -209,7 +341,7 @@ func sortedNames(m map[string]bool) []string {
 func (s *dsys) mkKey() {
 	var b strings.Builder
 
-	fmt.Fprintf(&b, "content=%v mod=%v ", sortedNames(s.content), s.modified)
+	fmt.Fprintf(&b, "content=%v mods=%d ", sortedNames(s.content), s.mods)
 
 	for i := range s.slots {
 		sl := &s.slots[i]
@@ -221,7 +353,7 @@ func (s *dsys) mkKey() {
 
 		del := append([]string{}, sl.kdel...)
 		sort.Strings(del)
-		fmt.Fprintf(&b, "| h%d:open D%v N%v started=%v stale=%v del=%v ", i, sl.usedD, sl.usedN, sl.started, sl.stale, del)
+		fmt.Fprintf(&b, "| h%d:open D%v N%v started=%v stale=%v del=%v lst=%s ", i, sl.usedD, sl.usedN, sl.started, sl.stale, del, sl.lst.String())
 	}
 
 	s.key = b.String()
@@ -312,53 +444,63 @@ func (s *dsys) Step(i int) bfs.StepResult {
 	}
 
 	if o.Slot < 0 {
-		// one modification of the directory per history
-		if s.modified {
+		// at most maxMods modifications of the directory per history
+		if s.mods >= s.maxMods {
 			return bfs.StepResult{Key: s.key, Outcome: "skip"}
 		}
 
-		var rk, rv res
-
 		s.kept.next()
 
-		p := s.dp + "/c"
+		p, q := s.dp+"/"+o.Arg, s.dp+"/"+o.To
 
-		if o.Kind == "Create" {
-			err := os.WriteFile(p, []byte("x"), 0o644)
-			rk = res{Kind: errKind(err), Msg: errMsg(err)}
-			rv = guarded(func() res {
-				err := s.v.WriteFile(p, []byte("x"), 0o644)
+		var kcall, vcall func() error
 
-				return res{Kind: errKind(err), Msg: errMsg(err)}
-			})
-		} else {
-			p = s.dp + "/e1"
-			err := os.Remove(p)
-			rk = res{Kind: errKind(err), Msg: errMsg(err)}
-			rv = guarded(func() res {
-				err := s.v.Remove(p)
-
-				return res{Kind: errKind(err), Msg: errMsg(err)}
-			})
+		switch o.Kind {
+		case "Create":
+			kcall = func() error { return os.WriteFile(p, []byte("x"), 0o644) }
+			vcall = func() error { return s.v.WriteFile(p, []byte("x"), 0o644) }
+		case "Remove":
+			kcall = func() error { return os.Remove(p) }
+			vcall = func() error { return s.v.Remove(p) }
+		default:
+			kcall = func() error { return os.Rename(p, q) }
+			vcall = func() error { return s.v.Rename(p, q) }
 		}
+
+		kerr := kcall()
+		rk := res{Kind: errKind(kerr), Msg: errMsg(kerr)}
+		rv := guarded(func() res {
+			err := vcall()
+
+			return res{Kind: errKind(err), Msg: errMsg(err)}
+		})
 
 		broken := rv.Kind == "PANIC" || rv.Kind == "DEADLOCK"
 
 		if rk.Kind != rv.Kind {
 			broken = true
 			viols = append(viols, bfs.Viol{
-				Sig:    map[string]string{"fs": s.fsName, "call": "dir." + o.Kind, "handle": "-", "arg": "", "sizeclass": szCls, "kernel": rk.Kind, "avfs": rv.Kind, "kind": "result"},
+				Sig:    map[string]string{"fs": s.fsName, "call": "dir." + o.Kind, "handle": "-", "arg": o.Arg, "sizeclass": szCls, "kernel": rk.Kind, "avfs": rv.Kind, "kind": "result"},
 				Detail: detail{What: "error kind differs", Call: o.String(), Expected: rk.String(), Observed: rv.String()}.String(),
 			})
 		}
 
 		if rk.Kind == "ok" {
-			s.modified = true
-			s.previous = s.content
+			s.mods++
 
 			for j := range s.slots {
 				if s.slots[j].st == stOpen && s.slots[j].started {
 					s.slots[j].stale = true
+				}
+
+				// the names that stopped denoting the entry they denoted (a WriteFile of an
+				// existing name keeps the entry)
+				if o.Kind != "Create" {
+					s.slots[j].lst.gone(o.Arg)
+				}
+
+				if o.Kind == "Rename" {
+					s.slots[j].lst.gone(o.To)
 				}
 			}
 		}
@@ -368,7 +510,7 @@ func (s *dsys) Step(i int) bfs.StepResult {
 		}
 
 		if !broken {
-			viols = append(viols, s.keptViols(o, "-", "", szCls, rk.Kind, rv.Kind)...)
+			viols = append(viols, s.keptViols(o, "-", o.Arg, szCls, rk.Kind, rv.Kind)...)
 		}
 
 		s.mkKey()
@@ -513,6 +655,17 @@ func (s *dsys) Step(i int) bfs.StepResult {
 
 		if !stale && len(viols) == 0 && len(sl.kdel) == len(s.content) && len(sl.vdel) != len(s.content) {
 			add("union", "the kernel handle has delivered the whole directory, the emulated handle has not")
+		}
+
+		// the rule that needs no kernel: what existed during the whole listing is delivered exactly once
+		if rv.Kind == "ok" || rv.Kind == "EOF" {
+			diffs, whats := sl.lst.piece(o.Kind, o.N, rv.Kind, rv.Names, s.content)
+
+			for j := range diffs {
+				v := bfs.Viol{Sig: sig("whole-listing"), Detail: detail{What: whats[j], Call: o.String(), Expected: rk.String(), Observed: rv.String()}.String()}
+				v.Sig["diff"] = diffs[j]
+				viols = append(viols, v)
+			}
 		}
 	}
 
